@@ -567,7 +567,9 @@ def scenarios(tier, seed):
     S = []
     q = tier == "quick"
     panels = [("xy", "chi2_fast", ["SA"]), ("xy", "chi2_fast", ["SAv", "SAx"]), ("xy", "chi2_fast", ["SA", "SRm"]), ("xy", "chi2_fast", ["MC", "SAm"]), ("xy", "nll", ["SA"]), ("xy", "gauss-approximation", ["SA"]),
-              ("indexed", "chi2_fast", ["SA"]), ("indexed", "chi2_fast", ["MC"]), ("indexed", "nll", []), ("hist", "nll", []), ("hist", "chi2_fast", ["SA"]), ("hist", "gauss-approximation", [])]
+              ("indexed", "chi2_fast", ["SA"]), ("indexed", "chi2_fast", ["MC"]), ("indexed", "nll", []), ("hist", "nll", []), ("hist", "chi2_fast", ["SA"]), ("hist", "gauss-approximation", []),
+              # every source declared relative to / for the MODEL (no data-side source at all)
+              ("indexed", "chi2_fast", ["SAm"]), ("indexed", "chi2_fast", ["SRm"]), ("xy", "chi2_fast", ["SAm"]), ("hist", "chi2_fast", ["SAm"])]
     for ftype, cost, srcs in panels:
         S.append(Scenario("panels/%s/%s/%s" % (ftype, cost, "+".join(srcs) or "none"), sc_data_panels, family="panels/" + ftype, params=dict(ftype=ftype, cost=cost, srcs=srcs)))
     for minimizer in ("scipy", "iminuit"):
